@@ -94,11 +94,11 @@ static char * pipecmd_format_arg (pipecmd_t e, const char *arg)
 {
     char buf [64];
     const char *p;
-    char *str = NULL;
+    char *str = Strdup ("");    /* never NULL: "" stays an (empty) argument */
 
     p = arg;
     while (*p != '\0') {
-        if (*p == '%') {
+        if (*p == '%' && *(p + 1) != '\0') {   /* a final lone '%' is literal */
             p++;
             switch (*p) {
                 case 'h' : /* '%n' => target name */
